@@ -22,3 +22,30 @@ class CatalogEntry { public:
     return true;
   }
 }; }
+
+// R-C01-6: the table cursor is advanced for every slot
+int count_volumes_good(const unsigned char *table)
+{
+  int found = 0;
+  unsigned offset = 8;
+  for (int i = 0; i < 8; ++i)
+    {
+      const unsigned track = table[offset];
+      offset += 2u;
+      if (track == 0)
+	continue;
+      ++found;
+    }
+  return found;
+}
+int count_set(const unsigned char *table)
+{
+  int found = 0;
+  for (int i = 0; i < 8; ++i)
+    {
+      if (table[i] == 0)
+	continue;
+      ++found;
+    }
+  return found;
+}
